@@ -212,7 +212,7 @@ StepEnd(e) ==
   /\ UNCHANGED <<scen, tprop, tst, tseen, thash, tsent, texpect, tfin, twins>>
 
 StepOther(e) ==
-  /\ e.ev \in {"Start", "Tick", "Skip", "CmdRet"}
+  /\ e.ev \in {"Start", "Tick", "Skip", "CmdRet", "BDrop"}
   /\ UNCHANGED <<alarms, scen, tprop, tst, tseen, thash, tsent, texpect, tfin, twins>>
 
 TraceNext ==
